@@ -234,6 +234,21 @@ func genC05Core(g *Gen, tier string, idx int) *wire.Scenario {
 	} else {
 		sc.Script = append(sc.Script, g.EditScript(o)...)
 	}
+	macroWrapped := false
+	// a keyboard macro recorded over some of these keys, then replayed: what is recorded must not depend
+	// on how the recorded keys were cut into reads (emacs style here; the vi style is C18's)
+	if mode == "emacs" && g.P(25) && len(sc.Script) > 0 {
+		from := g.N(len(sc.Script))
+		body := append([]wire.Token(nil), sc.Script[from:]...)
+		body = append(body, tok(Pick(g, []string{"\x1b[D", "\x1b[C", "\x1bOD", "\x1b[1;5D", "\x1bb", "\x1bf"}), "arrow-key"))
+		var w []wire.Token
+		w = append(w, sc.Script[:from]...)
+		w = append(w, tok("\x18(", "start-kbd-macro"))
+		w = append(w, body...)
+		w = append(w, tok("\x18)", "end-kbd-macro"), tok("\x18e", "call-last-kbd-macro"))
+		sc.Script = w
+		macroWrapped = true
+	}
 	// argument keys are plain ASCII here
 	for i := range sc.Script {
 		if sc.Script[i].Cmd == "arg-key" || strings.HasPrefix(sc.Script[i].Cmd, "raw-") {
@@ -246,7 +261,13 @@ func genC05Core(g *Gen, tier string, idx int) *wire.Scenario {
 		n = 24
 	}
 	for i := 0; i < n; i++ {
-		sc.Plans = append(sc.Plans, wire.Plan{Policy: "seeded", Class: "S2", Seed: g.Seed()})
+		cls := "S2"
+		if macroWrapped {
+			// the keys a replayed macro feeds are queued behind keys already read (a listed finding of the
+			// full batch): here each key sequence is cut into reads, but no two tokens share a read
+			cls = "S1"
+		}
+		sc.Plans = append(sc.Plans, wire.Plan{Policy: "seeded", Class: cls, Seed: g.Seed()})
 	}
 	sc.Plan = wire.Plan{Policy: "canonical", Class: "S0"}
 	return sc
@@ -499,6 +520,7 @@ var plainCmds = map[string]bool{
 	"previous-history": true, "next-history": true, "up-line-or-history": true, "down-line-or-history": true,
 	"vi-backward-delete-char": true, "vi-change-case": true, "vi-kill-eol": true, "vi-change-eol": true, "delete-word": true,
 	"vi-open-line-above": true, "vi-open-line-below": true, "vi-first-print": true,
+	"vi-set-buffer": true, // names the register of the next copy or put: edits nothing itself
 }
 
 // verbatimModeCmds start a mode in which every key is inserted as text.
@@ -525,7 +547,64 @@ func verbatimAnywhere(cat *Catalog, env *wire.Env, b string) bool {
 	return false
 }
 
+// genC06ViRegisters: copies into named registers (and appends to them through the upper-case names)
+// from different places of a multi-line buffer; none of it may change the text.
+func genC06ViRegisters(g *Gen) *wire.Scenario {
+	sc := &wire.Scenario{Prop: "C06", Family: "edit-vi-registers"}
+	env := wire.Env{Mode: "vi", Prompt: "> ", W: 80, H: 24, Multiline: "backslash", NoDefaultHistory: true}
+	sc.Env = env
+	lines := g.Range(2, 3)
+	if g.P(15) {
+		lines = 1
+	}
+	for l := 0; l < lines; l++ {
+		for i := 0; i < g.Range(2, 12); i++ {
+			sc.Script = append(sc.Script, tok(string(Pick(g, []rune("abc def xy"))), "self-insert"))
+		}
+		if l < lines-1 {
+			sc.Script = append(sc.Script, tok("\\", "self-insert"), tok("\r", "accept-line"))
+		}
+	}
+	sc.Script = append(sc.Script, tok("\x1b", "vi-movement-mode"))
+	for j := 0; j < g.N(3); j++ {
+		sc.Script = append(sc.Script, tok("k", "vi-move")) // towards the first line
+	}
+	for i := 0; i < g.Range(2, 6); i++ {
+		for j := 0; j < g.N(3); j++ {
+			sc.Script = append(sc.Script, tok(Pick(g, []string{"k", "j", "0", "$", "w", "b", "h", "l"}), "vi-move"))
+		}
+		if g.P(85) {
+			// the first copy names the register in lower case, later ones mostly append to it through the upper-case name
+			reg := "a"
+			if i > 0 && g.P(70) {
+				reg = "A"
+			} else if g.P(20) {
+				reg = Pick(g, []string{"b", "B", "z"})
+			}
+			sc.Script = append(sc.Script, tok("\"", "vi-set-buffer"), tok(reg, "arg-key"))
+		}
+		switch g.N(5) {
+		case 0, 1:
+			sc.Script = append(sc.Script, tok("Y", "vi-yank-whole-line"))
+		case 2:
+			sc.Script = append(sc.Script, tok("y", "vi-yank-to"), tok("y", "vi-yank-to"))
+		case 3:
+			sc.Script = append(sc.Script, tok("y", "vi-yank-to"), tok(Pick(g, []string{"w", "$", "b", "e", "0"}), "vi-move"))
+		default:
+			sc.Script = append(sc.Script, tok("y", "vi-yank-to"), tok("i", "select-inside"), tok("w", "arg-key"))
+		}
+	}
+	if g.P(60) {
+		sc.Script = append(sc.Script, tok("\r", "accept-line"))
+	}
+	sc.Plan = wire.Plan{Policy: "canonical", Class: "S0"}
+	return sc
+}
+
 func genC06(g *Gen, tier string, idx int) *wire.Scenario {
+	if idx%10 == 9 {
+		return genC06ViRegisters(g)
+	}
 	mode := "emacs"
 	if g.P(55) {
 		mode = "vi"
@@ -768,6 +847,9 @@ func execC06(x *Ctx, sc *wire.Scenario) *wire.Result {
 			break
 		}
 		before := waitAfter(out, i)
+		if before != nil && before.Kind == "arg" && len(t.B) == 1 && !stale[before] {
+			continue // exactly the one key the parked command asked for: nothing is left pending
+		}
 		if before == nil || before.Kind != "main" || stale[before] {
 			tainted = true
 			continue
